@@ -14,6 +14,9 @@ pub enum Item {
 #[derive(Clone, Debug)]
 pub struct Invocation { pub items: Vec<Item>, pub tail: Option<Vec<Vec<u8>>> /* after an explicit `--` */ }
 
+/// is this (positional) arg able to take several values over the command line?
+pub fn is_multi(a: &ArgS) -> bool { a.num_vals.is_some() || a.action == Some("append") }
+
 pub struct Conv { pub cmd: CmdS, pub opts: Vec<usize>, pub flags: Vec<usize>, pub pos: Vec<usize> }
 
 /// a command in the conventional class
@@ -46,7 +49,7 @@ pub fn gen_conventional(rng: &mut Rng, with_infer: bool) -> Conv {
     for k in 0..n_pos {
         let i = cmd.args.len();
         let mut a = ArgS { id: format!("pos{k}"), ..Default::default() };
-        if k + 1 == n_pos && rng.chance(2, 3) { a.num_vals = Some((if rng.chance(1, 2) { 1 } else { 0 }, None)); }
+        if k + 1 == n_pos && rng.chance(2, 3) { if rng.chance(1, 4) { a.action = Some("append"); } else { a.num_vals = Some((if rng.chance(1, 2) { 1 } else { 0 }, None)); } }
         if rng.chance(1, 6) { a.delim = Some(','); }
         if rng.chance(1, 3) { a.vp = Some(VpS::Os); }
         pos.push(i);
@@ -71,7 +74,7 @@ fn plain_val(rng: &mut Rng, k: usize, a: &ArgS) -> Vec<u8> {
 pub fn gen_invocation(rng: &mut Rng, cv: &Conv, with_tail: bool) -> Invocation {
     let mut items = vec![];
     let mut used_set: Vec<usize> = vec![];
-    let multi_pos = cv.pos.last().map(|&i| cv.cmd.args[i].num_vals.is_some()).unwrap_or(false);
+    let multi_pos = cv.pos.last().map(|&i| is_multi(&cv.cmd.args[i])).unwrap_or(false);
     let single_pos = cv.pos.len() - if multi_pos { 1 } else { 0 };
     let mut pos_left_single = single_pos;
     let n = rng.below(7);
